@@ -41,6 +41,7 @@ type c10ModelLine struct {
 	Assign bool
 	Cmd    []string
 	Diff   [][2]string
+	Out    string // the file this report is written to (effective `output`), "" = stdout or a temp file
 }
 
 type c10Model struct {
@@ -159,6 +160,7 @@ func c10AskModel(c *Ctx, p *profile.Profile, lines []c10Line) *c10Model {
 			ml.Cmd = append(ml.Cmd, t.str())
 		}
 		ml.Diff = t.cfg()
+		ml.Out = t.str()
 		m.Lines = append(m.Lines, ml)
 	}
 	m.Cfg = t.cfg()
@@ -287,7 +289,16 @@ func c10RunInteractive(pprofBin string, cs *c10Case, m *c10Model, seen *sync.Map
 	for _, l := range cs.Lines {
 		texts = append(texts, l.Text)
 	}
-	main := c10RunSession(pprofBin, dir, "main", texts, true)
+	// where each line writes its report to: the model says (fallback: the `>file` token of the line)
+	outs := make([]string, len(cs.Lines))
+	for i, l := range cs.Lines {
+		if m != nil && m.OK {
+			outs[i] = m.Lines[i].Out
+		} else {
+			outs[i] = c10RedirectOf(l.Text)
+		}
+	}
+	main := c10RunSession(pprofBin, dir, "main", texts, outs, true)
 	out.Main = main
 	if main.Err != "" {
 		out.HarnessErr = main.Err
@@ -335,6 +346,12 @@ func c10RunInteractive(pprofBin string, cs *c10Case, m *c10Model, seen *sync.Map
 				if seg.Dead {
 					bad = "model: report command, real session already ended"
 				}
+				// a user-named file written by this command must be the one the model's vcopy.output names
+				for f := range seg.Files {
+					if !strings.Contains(f, "<N>") && filepath.Clean(ml.Out) != f {
+						bad = fmt.Sprintf("real session wrote %q, model: the report goes to %q", f, ml.Out)
+					}
+				}
 			}
 			if bad != "" {
 				out.Mismatches = append(out.Mismatches, c10Mismatch{Sig: "C10/model/line-kind/" + ml.Kind + "/" + c10CmdName(cs.Lines[i].Text),
@@ -373,7 +390,8 @@ func c10RunInteractive(pprofBin string, cs *c10Case, m *c10Model, seen *sync.Map
 		if i < 0 || i >= len(cs.Lines) || assign[i] || main.Segs[i].Dead {
 			continue
 		}
-		ref := c10RunSession(pprofBin, dir, fmt.Sprintf("ref%d", k), append(c10Prefix(cs.Lines, assign, i), cs.Lines[i].Text), false)
+		refScript := append(c10Prefix(cs.Lines, assign, i), cs.Lines[i].Text)
+		ref := c10RunSession(pprofBin, dir, fmt.Sprintf("ref%d", k), refScript, c10Outs(len(refScript), outs[i]), false)
 		if ref.Err != "" {
 			out.HarnessErr = ref.Err
 			return out
@@ -383,7 +401,7 @@ func c10RunInteractive(pprofBin string, cs *c10Case, m *c10Model, seen *sync.Map
 			out.AfterMut++
 		}
 		got, want := main.Segs[i], ref.Segs[len(ref.Segs)-1]
-		if got.key() != want.key() && c10Confirm(pprofBin, dir, fmt.Sprintf("cf%d", k), texts[:i+1], append(c10Prefix(cs.Lines, assign, i), cs.Lines[i].Text), got, want, out, cs.Lines[i].Text, "C10/interactive/history-dependent/probe="+c10CmdName(cs.Lines[i].Text)) {
+		if got.key() != want.key() && c10Confirm(pprofBin, dir, fmt.Sprintf("cf%d", k), texts[:i+1], outs[:i+1], refScript, got, want, out, cs.Lines[i].Text, "C10/interactive/history-dependent/probe="+c10CmdName(cs.Lines[i].Text)) {
 			out.Mismatches = append(out.Mismatches, c10Mismatch{Sig: "C10/interactive/history-dependent/probe=" + c10CmdName(cs.Lines[i].Text),
 				What: fmt.Sprintf("line %d %q: transcript after the history differs from the transcript in a fresh session replaying only the %d assignment lines before it — %s",
 					i, cs.Lines[i].Text, len(ref.Segs)-1, c10SegDiff(got, want)), Probe: i})
@@ -408,14 +426,14 @@ func c10RunInteractive(pprofBin string, cs *c10Case, m *c10Model, seen *sync.Map
 				continue
 			}
 			script = append(script, strings.Join(m.Lines[i].Cmd, " "))
-			ref := c10RunSession(pprofBin, dir, fmt.Sprintf("des%d", k), script, false)
+			ref := c10RunSession(pprofBin, dir, fmt.Sprintf("des%d", k), script, c10Outs(len(script), outs[i]), false)
 			if ref.Err != "" {
 				out.HarnessErr = ref.Err
 				return out
 			}
 			out.Desugared++
 			got, want := main.Segs[i], ref.Segs[len(ref.Segs)-1]
-			if got.key() != want.key() && c10Confirm(pprofBin, dir, fmt.Sprintf("cd%d", k), texts[:i+1], script, got, want, out, cs.Lines[i].Text, "C10/model/args-desugar/"+c10CmdName(cs.Lines[i].Text)) {
+			if got.key() != want.key() && c10Confirm(pprofBin, dir, fmt.Sprintf("cd%d", k), texts[:i+1], outs[:i+1], script, got, want, out, cs.Lines[i].Text, "C10/model/args-desugar/"+c10CmdName(cs.Lines[i].Text)) {
 				out.Mismatches = append(out.Mismatches, c10Mismatch{Sig: "C10/model/args-desugar/" + c10CmdName(cs.Lines[i].Text),
 					What: fmt.Sprintf("line %d %q: differs from %q — %s", i, cs.Lines[i].Text, strings.Join(script[len(script)-len(m.Lines[i].Diff)-1:], " ; "), c10SegDiff(got, want)),
 					Broken: "correspondence Session.parseCommandLine ~ parseCommandLine(): what the arguments of a command mean", Probe: i})
@@ -433,7 +451,7 @@ func c10RunInteractive(pprofBin string, cs *c10Case, m *c10Model, seen *sync.Map
 //  3. the session with the history is run 5 more times and must give ITS observation every time.
 // Any variation on either side dismisses the difference (counted under C08-… in the distribution): a leak
 // is then still caught through the deterministic commands, which are the large majority.
-func c10Confirm(pprofBin, dir, tag string, mainScript, refScript []string, got, want c10Seg, out *c10Outcome, line, sig string) bool {
+func c10Confirm(pprofBin, dir, tag string, mainScript, mainOuts, refScript []string, got, want c10Seg, out *c10Outcome, line, sig string) bool {
 	if out.seen != nil {
 		if _, done := out.seen.Load(sig); done {
 			return false // confirmed once in this run; later instances are not re-examined
@@ -443,16 +461,20 @@ func c10Confirm(pprofBin, dir, tag string, mainScript, refScript []string, got, 
 		out.Hits = append(out.Hits, "C08-run-to-run-order-only-difference:"+c10CmdName(line))
 		return false
 	}
-	stable := func(script []string, name string, expect string) bool {
+	stable := func(script, outs []string, name string, expect string) bool {
 		for t := 0; t < 5; t++ {
-			s := c10RunSession(pprofBin, dir, fmt.Sprintf("%s-%s%d", tag, name, t), script, false)
+			s := c10RunSession(pprofBin, dir, fmt.Sprintf("%s-%s%d", tag, name, t), script, outs, false)
 			if s.Err != "" || len(s.Segs) != len(script) || s.Segs[len(s.Segs)-1].mkey() != expect {
 				return false
 			}
 		}
 		return true
 	}
-	if !stable(refScript, "r", want.mkey()) || !stable(mainScript, "m", got.mkey()) {
+	last := ""
+	if len(mainOuts) > 0 {
+		last = mainOuts[len(mainOuts)-1]
+	}
+	if !stable(refScript, c10Outs(len(refScript), last), "r", want.mkey()) || !stable(mainScript, mainOuts, "m", got.mkey()) {
 		out.Hits = append(out.Hits, "C08-run-to-run-nondeterministic-output:"+c10CmdName(line))
 		return false
 	}
@@ -460,6 +482,22 @@ func c10Confirm(pprofBin, dir, tag string, mainScript, refScript []string, got, 
 		out.seen.Store(sig, true)
 	}
 	return true
+}
+
+// c10RedirectOf: the file named by a `>file` / `> file` token (used only when the model is unavailable).
+func c10RedirectOf(text string) string {
+	f := strings.Fields(text)
+	for i, t := range f {
+		if strings.HasPrefix(t, ">") {
+			if len(t) > 1 {
+				return t[1:]
+			}
+			if i+1 < len(f) {
+				return f[i+1]
+			}
+		}
+	}
+	return ""
 }
 
 func c10IsReport(text string, m *c10Model, i int) bool {
@@ -580,7 +618,7 @@ func c10Fold(c *Ctx, cs *c10Case, m *c10Model, o *c10Outcome, shrink bool) {
 // ---- runner ----
 
 func runC10(c *Ctx) {
-	c.Res.Rule = "interactive, two script streams on generated profiles (labels, inlining, 1-4 sample types, absolute file names, four scratch source trees with different basenames/contents): (a) 60% free-form scripts — 50% report commands with focus/ignore/count/-cum/>file arguments, 30% assignments of every option incl. invalid values, shortcuts, built-ins, junk; (b) 40% toggle scripts — ONE option (40% source_path/trim_path, else any of the 31 content-relevant options) re-assigned to 2-3 different output-changing values, v1 v2 v3 v1 …, with the same file-/value-sensitive probe command after every re-assignment (list, weblist, top/tree/dot at file or line granularity, traces, tags, callgrind …) and noise reports in between. Real pprof binary, one process per session; every probed line's transcript+files is compared with a fresh session replaying only the assignment lines before it; the Lean model classifies the lines, predicts the options shown by `o` and what each command's arguments contribute (desugared reference). web: each case in three child processes (seq / conc / stall), non-URL options (source_path, trim_path, tagroot/tagleaf, divide_by) as flags, every 4th profile large enough for pages > 64 KiB: response of r on a fresh server vs after other requests, concurrently with them, and while still being written to a stalling slow-client ResponseWriter (r and up to 3 other URLs in flight) while the other URLs are rendered, GOMAXPROCS=1 and N. non-trivial = at least one compared probe is preceded by an executed report command (interactive) / by ≥1 other view request with filter parameters (web); distinct by script text"
+	c.Res.Rule = "interactive, two script streams on generated profiles (labels, inlining, 1-4 sample types, absolute file names, four scratch source trees with different basenames/contents): (a) ~55% free-form scripts (output file names are reused across commands and shared with output=; user-named files persist between lines and a line's files are those it wrote, byte for byte); (c) 10% file-reuse scripts (long report then short report into the same file, via >file or output=, same command twice); (a cont.) — 50% report commands with focus/ignore/count/-cum/>file arguments, 30% assignments of every option incl. invalid values, shortcuts, built-ins, junk; (b) 40% toggle scripts — ONE option (40% source_path/trim_path, else any of the 31 content-relevant options) re-assigned to 2-3 different output-changing values, v1 v2 v3 v1 …, with the same file-/value-sensitive probe command after every re-assignment (list, weblist, top/tree/dot at file or line granularity, traces, tags, callgrind …) and noise reports in between. Real pprof binary, one process per session; every probed line's transcript+files is compared with a fresh session replaying only the assignment lines before it; the Lean model classifies the lines, predicts the options shown by `o` and what each command's arguments contribute (desugared reference). web: each case in three child processes (seq / conc / stall), non-URL options (source_path, trim_path, tagroot/tagleaf, divide_by) as flags, every 4th profile large enough for pages > 64 KiB: response of r on a fresh server vs after other requests, concurrently with them, and while still being written to a stalling slow-client ResponseWriter (r and up to 3 other URLs in flight) while the other URLs are rendered, GOMAXPROCS=1 and N. non-trivial = at least one compared probe is preceded by an executed report command (interactive) / by ≥1 other view request with filter parameters (web); distinct by script text"
 	if c.Replay != "" {
 		var cs c10Case
 		if err := c.LoadReplay(&cs); err != nil {
@@ -616,7 +654,11 @@ func runC10(c *Ctx) {
 		b, _ := c10WriteU(p)
 		var lines []c10Line
 		toggle := i%5 < 2 // 40% toggle scripts, 60% free-form scripts
-		if toggle {
+		if i%10 == 9 {
+			toggle = true // (no quit injection)
+			lines = c10FileReuseScript(r)
+			c.Res.Hit("file-reuse-script")
+		} else if toggle {
 			var opt string
 			lines, opt = c10ToggleScript(r, c10Types(p))
 			c.Res.Hit("toggle-script:" + opt)
